@@ -182,31 +182,6 @@ def in_language(fl, engine):
     return True
 
 
-def retype(ctx, fl, rnd, engine):
-    """the same numbers held as NumPy floating-point scalars (parameters taken from arrays): float64 always, float32 where the
-    value is exactly representable - the engine is the same engine"""
-
-    def conv(x):
-        if isinstance(x, bool) or not isinstance(x, float):
-            return x
-        kind = rnd.choice([np.float64, np.float32, None])
-        if kind is None or (kind is np.float32 and math.isfinite(x) and float(np.float32(x)) != x):
-            return x
-        return kind(x)
-
-    for v in engine.variables:
-        v.minimum, v.maximum = conv(v.minimum), conv(v.maximum)
-        if isinstance(v, fl.OutputVariable):
-            v.default_value = conv(v.default_value)
-        for t in v.terms:
-            for name in R.ATTRS.get(type(t).__name__, ()):
-                setattr(t, name, conv(getattr(t, name)))
-            if type(t).__name__ == "Constant":
-                t.value = conv(t.value)
-            t.height = conv(t.height)
-    ctx.hit("workload:numbers held as NumPy floating-point scalars")
-
-
 def off_grid(rnd, spec):
     """the same engine with parameters moved off the decimals grid (text / structure part of the property)"""
     s = copy.deepcopy(spec)
@@ -250,7 +225,7 @@ def run(ctx):
                             ctx.hit(f"inconclusive:generated engine does not build: {type(ex).__name__}: {str(ex)[:60]}")
                             continue
                         if variant == "grid" and rnd.random() < 0.3:
-                            retype(ctx, fl, rnd, engine)
+                            E.retype(ctx, fl, rnd, engine)
                         try:
                             way = rnd.choice(["to_string", "to_string", "str", "Op.to_fll", "file", "separator"])
                             if way == "str":
